@@ -75,6 +75,11 @@ var c14Scenarios = [][]c14Op{
 	// scenario 19/20: a value of 4.6 KB is ADDED while a query runs
 	{{"MM", "x the quick brown fox y", ""}, {"ADD", "@BIGA", "K3"}},
 	{{"MM", "x the quick brown fox y", ""}, {"ADD", "@BIGA", "K3"}, {"NM", "lazy dog jumped", ""}},
+	// scenario 21/22 (with values=1;valuebytes=N): inexact NearestMatch calls on a text that is the
+	// big registered value with its last word changed (text and value together above a quarter of a
+	// megabyte: the diff of two long texts), twice, or next to an inexact query on short texts
+	{{"NM", "@E0X", ""}, {"NM", "@E0X", ""}},
+	{{"NM", "@E0X", ""}, {"NM", "the quick brown fix", ""}, {"NM", "lazy dog jumped", ""}},
 }
 
 // c14InvalidFirst (scenarios 15/16): an invalid-UTF-8 value is registered while the classifier is built.
@@ -182,6 +187,10 @@ func (o c14Op) run(cl *Classifier) string {
 	}
 	if o.arg == "@E0" {
 		o.arg = c14ExtraValue(0)
+	}
+	if o.arg == "@E0X" {
+		v := c14ExtraValue(0)
+		o.arg = v[:strings.LastIndexByte(v, ' ')+1] + "zqlast"
 	}
 	if strings.HasPrefix(o.arg, "@BIG") {
 		o.arg = c14BigText(o.arg)
